@@ -163,6 +163,53 @@ def drive(rec, s, fac):
                     back.rotate()
 
 
+def rotate_after_refused_calls(rec):
+    """calls the API refuses (a node as its own child, a side look-up for a stranger, rotate on a detached pair)
+    are part of a tree's history: after them the tree is as it was, and a valid rotation behaves as ever"""
+    from mathy_core.tree import BinaryTreeNode as B
+
+    def inorder(r):
+        out, stack, cur = [], [], r
+        while stack or cur is not None:
+            while cur is not None:
+                stack.append(cur)
+                cur = cur.left
+            cur = stack.pop()
+            out.append(cur)
+            cur = cur.right
+        return out
+
+    for shape in range(8):
+        for clear in (True, False):
+            a, b, c, d, e = B(), B(), B(), B(), B()
+            n = B(a, b)
+            p = B(n, c) if shape % 2 == 0 else B(c, n)
+            g = B(p, d) if shape % 4 < 2 else B(d, p)
+            root = B(g, e) if shape < 4 else g
+            before = inorder(root)
+            refused = 0
+            for x in (root, g, p, n):
+                for setter in (x.set_left, x.set_right):
+                    try:
+                        setter(x, clear_old_child_parent=clear)      # "nodes cannot be their own children"
+                    except ValueError:
+                        refused += 1
+                try:
+                    x.get_side(B())
+                except ValueError:
+                    refused += 1
+            rec.ev()
+            rec.arm("rotate:after-refused-calls")
+            n.rotate()
+            after = inorder(root)
+            ok = (len(after) == len(before) and all(x is y for x, y in zip(after, before)) and n.parent is g and (g.left is n or g.right is n) and p.parent is n
+                  and all(ch is None or ch.parent is x for x in after for ch in (x.left, x.right)))
+            if not ok:
+                rec.violation("C15", "rotate", "rotate breaks the in-order sequence or the link structure",
+                              {"refused": True, "summary": f"after {refused} refused calls (set_left/set_right with the node itself, clear_old_child_parent={clear}; get_side of a stranger) on a small tree, "
+                               f"rotating a grandchild: in-order sequence has {len(after)} of {len(before)} nodes / links inconsistent"})
+
+
 def rotate_beside_a_very_deep_subtree(rec):
     """rotate is a constant-time re-linking: the size or depth of the rest of the tree (a search tree
     filled with sorted keys is one long spine) has nothing to do with it.  Built and checked with
@@ -211,6 +258,8 @@ def rotate_beside_a_very_deep_subtree(rec):
 def run(rec, cfg):
     if cfg.shard == 6 % cfg.nshards:
         rotate_beside_a_very_deep_subtree(rec)
+    if cfg.shard == 5 % cfg.nshards:
+        rotate_after_refused_calls(rec)
     MT.attach_rotate("C15")
     MT.attach_queries("C15")   # after a rotation the public look-ups (children, sibling, root, side) agree with the new links
     fac = factories()
@@ -344,6 +393,9 @@ def run(rec, cfg):
 
 
 def replay(rec, cfg, w):
+    if w.get("refused"):
+        rotate_after_refused_calls(rec)
+        return
     if w.get("deep"):
         rotate_beside_a_very_deep_subtree(rec)
         return
